@@ -107,6 +107,7 @@ struct SimResult {
     handovers: usize,
 }
 
+#[cfg(not(miri))]
 fn c_produce_error(variant: usize) {
     let s = BAD_SELECTORS[variant % BAD_SELECTORS.len()];
     #[allow(clashing_extern_declarations)]
@@ -120,6 +121,7 @@ fn c_produce_error(variant: usize) {
     }
 }
 
+#[cfg(not(miri))]
 fn c_take_error() -> Option<String> {
     let e = unsafe { capi::lol_html_take_last_error() };
     if e.data.is_null() {
@@ -128,6 +130,26 @@ fn c_take_error() -> Option<String> {
     let s = String::from_utf8_lossy(unsafe { std::slice::from_raw_parts(e.data.cast::<u8>(), e.len) }).into_owned();
     unsafe { capi::lol_html_str_free(e) };
     Some(s)
+}
+
+// Under Miri the entry points are called through their Rust paths: the interpreter insists on
+// identical Rust types across a call, which a header-style redeclaration cannot provide.
+#[cfg(miri)]
+fn c_produce_error(variant: usize) {
+    let s = BAD_SELECTORS[variant % BAD_SELECTORS.len()];
+    let p = unsafe { lolhtml::selector::lol_html_selector_parse(s.as_ptr().cast(), s.len()) };
+    if !p.is_null() {
+        unsafe { lolhtml::selector::lol_html_selector_free(p) };
+    }
+}
+
+#[cfg(miri)]
+fn c_take_error() -> Option<String> {
+    let e = lolhtml::errors::lol_html_take_last_error();
+    let raw: capi::lol_html_str_t = unsafe { std::mem::transmute_copy(&e) };
+    let out = if raw.data.is_null() { None } else { Some(String::from_utf8_lossy(unsafe { std::slice::from_raw_parts(raw.data.cast::<u8>(), raw.len) }).into_owned()) };
+    unsafe { lolhtml::string::lol_html_str_free(e) };
+    out
 }
 
 /// One multi-instance simulation, fully determined by (scenarios, seed, thread count).
@@ -479,4 +501,53 @@ pub fn digest_lines(seed: u64, n: u64) -> Vec<String> {
         }
     }
     out
+}
+
+/// E4 (Miri many-seeds): truly concurrent instances, no baton. Every thread runs its scenarios
+/// start to finish while the others run theirs; Miri's seeded scheduler preempts inside API calls
+/// and its data-race detector monitors every access. Each history must equal the solo history
+/// computed sequentially beforehand. Also exercises the C last-error slot from several threads.
+pub fn concurrent_smoke(seed: u64, threads: usize, per_thread: usize) -> Result<(), String> {
+    let mut rng = Rng::new(seed, "C18.miri", 0);
+    let mut plan: Vec<Vec<(Scenario, u64)>> = vec![];
+    for _ in 0..threads {
+        let mut v = vec![];
+        for _ in 0..per_thread {
+            let mut sc = gen_instance(&mut rng);
+            sc.send = rng.bool();
+            // keep documents small: the interpreter is slow
+            sc.doc.truncate(48);
+            sc.cuts.retain(|&c| c < 48);
+            let solo = driver::run(&sc)?;
+            v.push((sc, history_digest(&solo)));
+        }
+        plan.push(v);
+    }
+    let results: Vec<Result<(), String>> = std::thread::scope(|s| {
+        let hs: Vec<_> = plan
+            .iter()
+            .enumerate()
+            .map(|(ti, v)| {
+                s.spawn(move || {
+                    for (k, (sc, want)) in v.iter().enumerate() {
+                        c_produce_error(ti + k);
+                        let h = driver::run(sc)?;
+                        if history_digest(&h) != *want {
+                            return Err(format!("thread {ti} scenario {k}: history differs from the solo run: {}", serde_json::to_string(sc).unwrap_or_default()));
+                        }
+                        let e = c_take_error();
+                        if e.is_none() {
+                            return Err(format!("thread {ti}: own last error vanished"));
+                        }
+                    }
+                    Ok(())
+                })
+            })
+            .collect();
+        hs.into_iter().map(|h| h.join().unwrap_or_else(|_| Err("thread panicked".into()))).collect()
+    });
+    for r in results {
+        r?;
+    }
+    Ok(())
 }
